@@ -24,7 +24,8 @@ def configs(tier):
     else:
         archs = [(a, b, c) for a in (1, 2, 3) for b in (1, 2, 3) for c in (1, 2, 3)] + [(2, 4, 2), (2, 2, 4), (4, 1, 1), (1, 4, 4)]
     hist = [{"nv": 2, "nh": 1, "na": 2, "grad": "off"}, {"nv": 1, "nh": 1, "na": 1, "grad": "off"}, {"nv": 2, "nh": 1, "na": 2, "via": "deepcopy"}, {"nv": 1, "nh": 1, "na": 1, "via": "pickle"}]
-    return [{"nv": a, "nh": b, "na": c} for (a, b, c) in archs] + hist + [{"generic": "every shape"}, {"lean": "size-generic lemmas"}, {"independence": "mixed"}]
+    return [{"nv": a, "nh": b, "na": c} for (a, b, c) in archs] + hist + [{"generic": "every shape"}, {"lean": "size-generic lemmas"}, {"independence": "mixed"}] + \
+        [{"callee": "indexing", "size": s} for s in (1, 2, 3, 4)]
 
 
 def canaries(tier):
@@ -48,6 +49,11 @@ def Psi(am, ph, v, a, ctx=None, tag=""):
 
 
 def run_config(ctx, cfg):
+    if cfg.get("callee"):
+        # the basis over which the statements of this property are summed is generate_hilbert_space's result: its
+        # contract (C19: row k is the expansion of k, also after a caller modified an earlier result) is shared here
+        from lemmas import C19
+        return C19._indexing(ctx, {"part": "indexing", "size": cfg["size"]})
     if cfg.get("independence"):
         # the amplitude and the phase network are independent objects on every construction route (also module=): what one
         # network holds never follows the other
@@ -255,6 +261,9 @@ def run_config(ctx, cfg):
 
 
 def replay(o):
+    if o["cfg"].get("callee"):
+        from drivers import C19 as D19
+        return D19.replay({"part": "indexing", "size": o["cfg"]["size"]})
     if o["cfg"].get("independence"):
         from drivers import C20 as D20
         return D20.replay({"part": "module", "kind": o["cfg"]["independence"]})
